@@ -148,7 +148,7 @@ def r_gather(repo, rep, R='R11.3'):
         chunk = ('unpack', elem, 1)
         z = ('call', N('zip'), (('star', chunk),), ())
         want_head = ('tuple', (('call', N('list'), (('unpack', z, 0),), ()), ('call', N('list'), (('unpack', z, 1),), ())))
-        okargs = args_t[0] == 'binop' and args_t[1] == '+' and args_t[2] == want_head and sub[0][2][0] == A(A(N('depccg'), '_parsing'), 'run')
+        okargs = args_t[0] == 'binop' and len(args_t) == 4 and args_t[1] == '+' and args_t[2] == want_head and bool(sub[0][2]) and sub[0][2][0] == A(A(N('depccg'), '_parsing'), 'run')
     rep.check(okargs, R, w, 'run:chunk-args', 'each worker gets the sentences and the scores of its own chunk, in chunk order', 'worker args are %s' % (show(args_t)[:120] if args_t else None))
     apps = [e[1] for e in st.events if e[0] == 'call' and e[1][1][0] == 'attr' and e[1][1][2] == 'append' and e[1][2] and e[1][2][0] == sub[0]]
     rep.check(bool(apps) and apps[0][1][1][0] == 'alloc', R, w, 'run:tasks-in-order', 'tasks are appended to a fresh list in submission (= chunk) order',
@@ -171,7 +171,7 @@ def r_gather(repo, rep, R='R11.3'):
     rep.check(okd, R, w, 'run:direct', 'a small batch is parsed in-process with the whole (doc, scores) in order', 'direct path returns %s' % (show(direct[0].ret)[:80] if direct else None))
     # same positional/keyword arguments on both paths
     a_direct = direct[0].ret[2][2:] if okd else None
-    same = okd and args_t is not None and args_t[3] == ('tuple', a_direct)
+    same = okd and args_t is not None and args_t[0] == 'binop' and len(args_t) == 4 and args_t[3] == ('tuple', a_direct)
     rep.check(bool(same), R, w, 'run:same-args', 'both paths pass the same categories / rule functions / roots', 'pooled and direct paths pass different fixed arguments')
     kwd = kw.get('kwds')
     okk = kwd is not None and kwd[0] == 'dict' and any(k is None and v == dict(direct[0].ret[3]).get(None, v) for k, v in kwd[1]) if okd else False
